@@ -537,6 +537,10 @@ class Authorization(Endpoint):
                 for k, v in _ver_request.items():
                     request[k] = v
 
+                # now that the parameters are assembled, verify the request as a whole
+                _err = self.verify_request(request, args["keyjar"], client_id, {"resolved": True})
+                if _err:
+                    return _err
                 request[verified_claim_name("request")] = _ver_request
             else:
                 raise ServiceError("Got a %s response", _resp.status)
